@@ -80,6 +80,22 @@ Theorem C10_report_needs_every_tag_target : forall r enum roots names evs,
 Proof. exact report_needs_every_tag_target. Qed.
 Print Assumptions C10_report_needs_every_tag_target.
 
+(* the tree of every enumerated commit was enumerated ... *)
+Theorem C10_report_needs_every_commit_tree : forall r enum roots names evs,
+  scan r enum roots names = SOk evs ->
+  forall c s t ps, In c enum -> lookup r c = Some (Commit s t ps) -> In t enum /\ is_tree r t.
+Proof. exact report_needs_every_commit_tree. Qed.
+Print Assumptions C10_report_needs_every_commit_tree.
+
+(* ... so, in one statement: the listing behind a report is closed under every edge the scan follows (commit -> tree and parents,
+   tree -> files and sub-directories, tag -> tag), as far as the repository holds the objects at all.  A listing that a faulty
+   `git rev-list` truncated anywhere but at such a closed set cannot end in a report. *)
+Theorem C10_report_listing_closed : forall r enum roots names evs,
+  scan r enum roots names = SOk evs ->
+  forall o c, In o enum -> edge_of r o c -> lookup r c <> None -> In c enum.
+Proof. exact report_listing_closed. Qed.
+Print Assumptions C10_report_listing_closed.
+
 (* non-vacuity on the example repository of ScanEvents.v: the full listing gives a report; the listing without the blob, the listing
    without the middle tree, and the listing naming an object that does not exist, do not *)
 Example C10_scan_example :
